@@ -11,7 +11,7 @@ from __future__ import annotations
 
 from fractions import Fraction
 
-from .. import common, payloads, refdb, vloop, wire
+from .. import clientkit, common, payloads, refdb, vloop, wire
 from ..vloop import it_connect
 from nmea2000.decoder import NMEA2000Decoder
 from nmea2000.encoder import NMEA2000Encoder
@@ -104,6 +104,8 @@ def _task_codec(args):
     ref = NMEA2000Decoder()
     usb_seen = 0
     shared = {}
+    filler = clientkit.gnss_message()
+    filler.source, filler.destination = 200, 255
     for di in idxs:
         defn = db.defs[di]
         for base in ("min", "mid", "max", "ones"):
@@ -177,6 +179,21 @@ def _task_codec(args):
                             why = same_message(m0, got2, defn.pgn, fmt)
                         except Exception as ex:  # noqa: BLE001
                             why = f"{type(ex).__name__}: {ex}"
+                        if not why and defn.fast and base == "mid":
+                            # ... and once more after seven other fast-packet messages from the same encoder: the message then carries
+                            # the same sequence counter as its predecessor on the stream
+                            try:
+                                for _ in range(7):
+                                    for pk in encode(se, fmt, filler):
+                                        feed(sd, fmt, pk)
+                                got3 = None
+                                for pk in encode(se, fmt, m0):
+                                    got3 = feed(sd, fmt, pk)
+                                why = same_message(m0, got3, defn.pgn, fmt)
+                                if why:
+                                    why = "sent again eight fast-packet messages later (same sequence counter): " + why
+                            except Exception as ex:  # noqa: BLE001
+                                why = f"sent again eight fast-packet messages later: {type(ex).__name__}: {ex}"
                         st["roundtrips"] += 1
                         if why and len(vios) < 60:
                             vios.append({"kind": "roundtrip", "facts": {"format": fmt, "definition": defn.id, "mechanism": "depends_on_history"},
